@@ -498,6 +498,12 @@ def _cx_antisym(rec, rng):
     ctrl = rng.uniform(-1.0, 1.5, size=(nctrl, N1))
     alpha = rng.normal(size=nctrl)
     X = rng.uniform(-1.0, 1.5, size=(n, N1))
+    # spin-unpolarised samples and control points: the first two features exactly equal (value 0, gradient not)
+    eq = rng.random(n) < 0.25
+    X[eq, 1] = X[eq, 0]
+    ceq = rng.random(nctrl) < 0.15
+    ctrl[ceq, 1] = ctrl[ceq, 0]
+    rec.tag("antisym_equal_pair_samples", int(eq.sum()) > 0)
     rec.tag("nfeat", N1)
     rec.tag("nsamp", n)
     rec.tag("nctrl", nctrl)
